@@ -54,6 +54,8 @@ fn worker(prop: &'static str, mode: &str, arg: Option<&str>) -> i32 {
         _ => usage(),
     };
     let mut ctx = Ctx::new(prop, tier, seed);
+    let case_budget = std::env::var("DSV_CASE_BUDGET_S").ok().and_then(|s| s.parse().ok()).unwrap_or(if tier == Tier::Quick { 150 } else { 900 });
+    start_case_watchdog(prop, case_budget);
     if !props::run(&mut ctx) {
         eprintln!("no check implemented for {}", prop);
         return 2;
